@@ -429,11 +429,35 @@ func (e *Engine) dependsOn(v ssa.Value, pred func(ssa.Value) bool, depth int) bo
 					return true
 				}
 			}
-			// control: conditions of branches between idom and the phi block
+			// control: conditions of the branches that select the phi's edge:
+			// every `if` in the region dominated by the phi block's immediate
+			// dominator from which the phi block is reachable (this includes
+			// the body of a loop whose header holds the phi).
+			// Only for boolean phis (short-circuit results and flag
+			// accumulators): a loop counter is control-dependent on every
+			// branch of its loop, which says nothing about its value.
 			b := y.Block()
-			if id := b.Idom(); id != nil {
-				for _, bb := range b.Parent().Blocks {
-					if (bb == id || id.Dominates(bb)) && !b.Dominates(bb) && len(bb.Instrs) > 0 {
+			isBool := false
+			if bt, ok := y.Type().Underlying().(*types.Basic); ok && bt.Kind() == types.Bool {
+				isBool = true
+			}
+			if id := b.Idom(); id != nil && isBool {
+				reach := map[*ssa.BasicBlock]bool{}
+				stack := []*ssa.BasicBlock{b}
+				for len(stack) > 0 {
+					x := stack[len(stack)-1]
+					stack = stack[:len(stack)-1]
+					for _, p := range x.Preds {
+						if !reach[p] && (p == id || id.Dominates(p)) {
+							reach[p] = true
+							if p != id {
+								stack = append(stack, p)
+							}
+						}
+					}
+				}
+				for bb := range reach {
+					if len(bb.Instrs) > 0 {
 						if ifi, ok := bb.Instrs[len(bb.Instrs)-1].(*ssa.If); ok {
 							if visit(ifi.Cond, d) {
 								return true
